@@ -230,14 +230,53 @@ var serialCtr struct {
 	n int64
 }
 
+// Variant selects one of the eight equal-layout variants of a shape (history machine of X509Parse.tla): the
+// issuer name, the subject name and the alternative names each in one of two spellings of equal length;
+// everything else (keys, serial, validity, every other payload) is drawn from r, so two variants issued with
+// equally seeded generators differ in nothing but their slots.
+type Variant struct {
+	Iss, Sub, San int
+	Serial        int64
+}
+
+// nextSpelling changes the last ASCII letter of s into its neighbour: same length, same syntax class.
+func nextSpelling(s string) string {
+	b := []byte(s)
+	for i := len(b) - 1; i >= 0; i-- {
+		c := b[i]
+		if (c >= 'a' && c < 'z') || (c >= 'A' && c < 'Z') {
+			b[i] = c + 1
+			return string(b)
+		}
+		if c == 'z' || c == 'Z' {
+			b[i] = c - 1
+			return string(b)
+		}
+	}
+	return s
+}
+
 // Issue materializes a template: payloads are drawn from the pools with r.
-func Issue(t Template, r *rand.Rand) (*Issued, error) {
+func Issue(t Template, r *rand.Rand) (*Issued, error) { return issue(t, r, nil) }
+
+// IssueVariant materializes one variant of a shape; r must be seeded identically for all variants of the shape.
+func IssueVariant(t Template, r *rand.Rand, v Variant) (*Issued, error) { return issue(t, r, &v) }
+
+func issue(t Template, r *rand.Rand, v *Variant) (*Issued, error) {
 	key := pickKey(t.Key, r)
 	signer := pickKey(t.Key, r)
-	serialCtr.Lock()
-	serialCtr.n++
-	sn := serialCtr.n
-	serialCtr.Unlock()
+	var sn int64
+	leafCN, issuerCN := "", "issuer CA"
+	if v != nil {
+		sn = v.Serial
+		leafCN, issuerCN = fmt.Sprintf("leaf %d", v.Sub), fmt.Sprintf("issuer CA %d", v.Iss)
+	} else {
+		serialCtr.Lock()
+		serialCtr.n++
+		sn = serialCtr.n
+		serialCtr.Unlock()
+		leafCN = "leaf " + fmt.Sprint(sn)
+	}
 	serial := new(big.Int).SetInt64(sn)
 	switch r.Intn(3) {
 	case 0: // 20 octets, top bit clear
@@ -250,13 +289,13 @@ func Issue(t Template, r *rand.Rand) (*Issued, error) {
 	}
 	c := &x509.Certificate{
 		SerialNumber: serial,
-		Subject:      name(t.Name, "leaf "+fmt.Sprint(sn), r),
+		Subject:      name(t.Name, leafCN, r),
 	}
 	issuerKind := t.Name
 	if issuerKind == "empty" {
 		issuerKind = "printable" // an issuer name is never empty
 	}
-	parent := &x509.Certificate{Subject: name(issuerKind, "issuer CA", r)}
+	parent := &x509.Certificate{Subject: name(issuerKind, issuerCN, r)}
 	nb := []time.Time{time.Date(2020, 1, 1, 0, 0, 0, 0, time.UTC), time.Date(1999, 12, 31, 23, 59, 59, 0, time.UTC),
 		time.Date(1950, 1, 1, 0, 0, 0, 0, time.UTC), time.Date(2049, 6, 30, 12, 30, 1, 0, time.UTC)}
 	c.NotBefore = nb[r.Intn(len(nb))]
@@ -380,6 +419,27 @@ func Issue(t Template, r *rand.Rand) (*Issued, error) {
 	}
 	if !t.has("bc") {
 		c.BasicConstraintsValid = false
+	}
+	if v != nil && v.San == 1 {
+		// the other spelling of the alternative names: the first name of every kind, same length
+		if len(c.DNSNames) > 0 {
+			c.DNSNames = append([]string{nextSpelling(c.DNSNames[0])}, c.DNSNames[1:]...)
+		}
+		if len(c.EmailAddresses) > 0 {
+			c.EmailAddresses = append([]string{nextSpelling(c.EmailAddresses[0])}, c.EmailAddresses[1:]...)
+		}
+		if len(c.IPAddresses) > 0 {
+			ip := append(net.IP{}, c.IPAddresses[0]...)
+			ip[len(ip)-1] ^= 1
+			c.IPAddresses = append([]net.IP{ip}, c.IPAddresses[1:]...)
+		}
+		if len(c.URIs) > 0 {
+			u, err := url.Parse(nextSpelling(c.URIs[0].String()))
+			if err != nil {
+				return nil, err
+			}
+			c.URIs = append([]*url.URL{u}, c.URIs[1:]...)
+		}
 	}
 	// signature algorithm variety (the issuer key type follows the template's key type)
 	switch sk := signer.(type) {
